@@ -1095,6 +1095,106 @@ fn drain_message_with(mut m: Message<'_>, pk: &dyn pgp::types::VerifyingKey) {
     let _ = m.verify(pk);
 }
 
+// ---- CFB containers (SEIPDv1, SED) cut at every length
+
+#[derive(Clone, Debug)]
+struct CfbLen {
+    sym: u8,
+    /// false: SEIPDv1 (tag 18), true: legacy SED (tag 9)
+    sed: bool,
+    /// length of the container body that is kept (of a valid container)
+    keep: usize,
+    /// 0: default read mode, 1: Streaming, 2: CheckFirst with a 16-octet limit
+    mode: u8,
+    /// length of the literal data inside
+    data: usize,
+}
+
+fn cfb_len_cases(tier: Tier) -> Vec<CfbLen> {
+    static CACHE: std::sync::OnceLock<[Vec<CfbLen>; 2]> = std::sync::OnceLock::new();
+    let c = CACHE.get_or_init(|| {
+        let mk = |tier: Tier| {
+            let mut v = Vec::new();
+            for sym in [1u8, 2, 3, 4, 7, 8, 9, 10, 11, 12, 13] {
+                let (bs, _) = cm::sym_params(sym).expect("cipher");
+                for sed in [false, true] {
+                    for data in tier.pick(vec![0usize, 5], vec![0usize, 5, 40]) {
+                        // prefix + literal packet (+ MDC)
+                        let full = bs + 2 + 8 + data + if sed { 0 } else { 22 };
+                        for keep in 0..=full {
+                            for mode in 0..3u8 {
+                                v.push(CfbLen { sym, sed, keep, mode, data });
+                            }
+                        }
+                    }
+                }
+            }
+            v
+        };
+        [mk(Tier::Quick), mk(Tier::Thorough)]
+    });
+    c[if tier == Tier::Quick { 0 } else { 1 }].clone()
+}
+
+fn run_cfb_len(c: &CfbLen) -> Outcome {
+    let (bs, ks) = cm::sym_params(c.sym).expect("cipher");
+    let sk = vec![6u8; ks];
+    let prefix: Vec<u8> = (0..bs).map(|i| 0x31 + i as u8).collect();
+    let mut lit = vec![b'b', 0, 0, 0, 0, 0];
+    lit.extend(std::iter::repeat(b'q').take(c.data));
+    let inner = frame_min(11, &lit);
+    let stream = if c.sed {
+        let full = cm::sed_encrypt(c.sym, &sk, &prefix, &inner);
+        frame_min(9, &full[..c.keep.min(full.len())])
+    } else {
+        let full = cm::seipdv1_encrypt(c.sym, &sk, &prefix, &inner);
+        let mut b = vec![1u8];
+        b.extend_from_slice(&full[..c.keep.min(full.len())]);
+        frame_min(18, &b)
+    };
+    stage_reset();
+    let r = crate::engine::guarded(|| {
+        let mut opts = DecryptionOptions::new().enable_legacy();
+        opts = match c.mode {
+            1 => opts.set_seipdv1_read_mode(pgp::types::Seipdv1ReadMode::Streaming),
+            2 => opts.set_seipdv1_read_mode(pgp::types::Seipdv1ReadMode::CheckFirst { max_message_size: 16 }),
+            _ => opts,
+        };
+        if let Ok(m) = dbg(Message::from_bytes(&stream[..])) {
+            mark(0);
+            let ring = TheRing {
+                session_keys: vec![PlainSessionKey::V3_4 { sym_alg: SymmetricKeyAlgorithm::from(c.sym), key: sk.clone().into() }],
+                decrypt_options: opts,
+                ..Default::default()
+            };
+            if let Ok((m2, _)) = dbg(m.decrypt_the_ring(ring, true)) {
+                mark(1);
+                drain_message(m2, 1);
+            }
+        }
+        // the packet-level decryptors
+        if !c.sed {
+            let body = &stream[stream.len() - c.keep.min(stream.len())..];
+            let mode = match c.mode {
+                1 => pgp::types::Seipdv1ReadMode::Streaming,
+                2 => pgp::types::Seipdv1ReadMode::CheckFirst { max_message_size: 16 },
+                _ => Default::default(),
+            };
+            if let Ok(mut d) = SymmetricKeyAlgorithm::from(c.sym).stream_decryptor_protected(mode, &sk, body) {
+                let mut out = Vec::new();
+                let _ = d.read_to_end(&mut out);
+            }
+        }
+    });
+    match r {
+        Ok(()) => Outcome::ok(stage_class()),
+        Err((loc, msg)) => Outcome::bad(
+            format!("C04:panic@{}:cfb-container-length", crate::engine::loc_file(&loc)),
+            format!("{} container, cipher {}, read mode {}: body cut to {} octets (literal of {} octets inside): panic at {loc}: {}", if c.sed { "SED" } else { "SEIPDv1" }, c.sym, c.mode, c.keep, c.data, msg.chars().take(120).collect::<String>()),
+        ),
+    }
+}
+
 // ---- hostile data under a text-mode signature
 
 #[derive(Clone, Debug)]
@@ -1508,6 +1608,7 @@ fn space_total(tier: Tier, space: &str) -> u64 {
         "ecdh_padding" => ecdh_pad_cases().len() as u64,
         "signature_mpi_lengths" => sig_len_cases(tier).len() as u64,
         "text_signature_data" => text_data_cases(tier).len() as u64,
+        "cfb_container_lengths" => cfb_len_cases(tier).len() as u64,
         _ => 0,
     }
 }
@@ -1531,6 +1632,7 @@ fn case_json(tier: Tier, space: &str, idx: u64) -> Value {
         "ecdh_padding" => json!({"index": idx, "case": format!("{:?}", ecdh_pad_cases()[idx as usize])}),
         "signature_mpi_lengths" => json!({"index": idx, "case": format!("{:?}", sig_len_cases(tier)[idx as usize])}),
         "text_signature_data" => json!({"index": idx, "case": format!("{:?}", text_data_cases(tier)[idx as usize])}),
+        "cfb_container_lengths" => json!({"index": idx, "case": format!("{:?}", cfb_len_cases(tier)[idx as usize])}),
         _ => json!({"index": idx}),
     }
 }
@@ -1557,6 +1659,7 @@ fn run_case(tier: Tier, space: &str, idx: u64) -> Outcome {
         "ecdh_padding" => run_ecdh_pad(&ecdh_pad_cases()[idx as usize]),
         "signature_mpi_lengths" => run_sig_len(&sig_len_cases(tier)[idx as usize]),
         "text_signature_data" => run_text_data(&text_data_cases(tier)[idx as usize]),
+        "cfb_container_lengths" => run_cfb_len(&cfb_len_cases(tier)[idx as usize]),
         _ => Outcome::trivial("unknown space"),
     }
 }
@@ -1571,7 +1674,8 @@ pub fn worker(tier: Tier, space: &str, start: u64, end: u64) -> Option<Value> {
 
 pub fn check(ctx: &Ctx) {
     let tier = ctx.tier;
-    let spaces: [(&str, &str, u64); 12] = [
+    let spaces: [(&str, &str, u64); 13] = [
+        ("cfb_container_lengths", "valid SEIPDv1 and legacy SED containers (made by the reference model, 11 ciphers, literal of 0 / 5 (thorough 40) octets) cut to EVERY length 0..full - inside the CFB prefix, inside the data, inside the MDC - x read mode {default, Streaming, CheckFirst with a 16-octet limit}, through decrypt_the_ring with the session key + drain, and through stream_decryptor_protected", 2_000),
         ("signature_mpi_lengths", "signatures with a CORRECT digest prefix and issuer (so that verification reaches the public-key code) whose signature MPIs have every length 0..36 (P-384: 52, P-521: 70) in all (r, s) pairs (quick: full cross product around the field size, the axes elsewhere) for EdDSA-legacy, ECDSA P-256 v4/v6, P-384, P-521, secp256k1, and RSA with 0..260 octets: Signature::verify and the inline message path", 2_000),
         ("ecdh_padding", "ECDH PKESK (P-256 v4/v6, Curve25519-legacy) made by the reference model (own ephemeral key, RFC 9580 11.5 KDF, RFC 3394 wrap) around an attacker-chosen plaintext: every length 8..48 (multiples of 8) x every final (padding) octet 0..255 x uniform / patterned fill, through DecryptionKey::decrypt v3 / v6", 1_000),
         ("text_signature_data", "attacker-chosen data under a text-mode signature (hashing precedes the signature check): every length 0..40 (thorough 0..600) and every length within 3 of each multiple of 512 up to 2048 (8704) x 8 line-ending patterns (trailing CR / CR LF, CR LF or LF on every 512 edge with a trailing CR, all CR, all LF, alternating, CR just before every edge) x carrier {detached verify, cleartext document, prefixed message}", 2_000),
